@@ -352,7 +352,23 @@ func (g *Gen) Malformed() *Request {
 	var body []byte
 	kind := ""
 	numField := []string{"inputHash", "preRoot", "postRoot"}[t.Pick(3)]
-	switch t.Draw(17) {
+	switch t.Draw(20) {
+	case 17:
+		// a JSON null where a number string is documented (ill-typed: a null is not a number)
+		doc[numField] = nil
+		body = render(doc)
+		kind = "null-number-field"
+	case 18:
+		ic := doc["identityCommitments"].([]any)
+		ic[t.Pick(len(ic))] = nil
+		body = render(doc)
+		kind = "null-commitment"
+	case 19:
+		mp := doc["merkleProofs"].([]any)
+		row := mp[t.Pick(len(mp))].([]any)
+		row[t.Pick(len(row))] = nil
+		body = render(doc)
+		kind = "null-sibling"
 	case 16:
 		// a long non-numeric string: the error body that echoes it spans several socket writes
 		doc[numField] = "0x" + strings.Repeat("zq", 1000+t.Draw(3000))
